@@ -251,6 +251,16 @@ def build_corpus(seed: int, n_templates: int, max_bytes: int) -> List[Dict[str, 
     for k in range(n_templates):
         props = rng.random() < 0.3
         docs.append((f"tmpl{k}" + ("+props" if props else ""), template_doc(rng, props)))
+    if max_bytes >= 30000:
+        # long documents (beyond one 8 KiB / 64 KiB read): many small tables with distinct names
+        for label, n in (("big-9k", 110), ("big-70k", 820)):
+            blocks = []
+            for k in range(n):
+                ref = f" [ref: > big{k - 1}.id]" if k and k % 7 == 0 else ""
+                blocks.append(f"Table big{k} {{\n  id int [pk]\n  parent_id int{ref}\n  label varchar [note: 'n{k} é']\n}}")
+            text = "\n\n".join(blocks) + "\n"
+            if len(text.encode("utf8")) <= max_bytes:
+                docs.append((label, text))
     docs.append(("empty", ""))
     docs.append(("only-comment", "// nothing here\n"))
     base = list(docs)
